@@ -18,7 +18,14 @@
 (*   LoadTreeOp       Config.load_tree / _set_value for the field kinds    *)
 (*                    the instances use (plain Field, IntField,            *)
 (*                    IncludeField, nested Schema); not atomic             *)
-(*   Parse, Includes, LoadTree   the three steps of Config.loads           *)
+(*   FmtLoads         ConfigFormat.loads of the format the caller named,   *)
+(*                    created with the caller's options (YAML root_key,    *)
+(*                    XML root_tag, JSON pretty); the SAME options for the *)
+(*                    document and for every included file (core.py hands  *)
+(*                    partial(ConfigFormat.get, format, **kwargs) down)    *)
+(*   Parse, Includes, LoadTree   the three steps of Config.loads;          *)
+(*                    Config.load(filename, format) reads the file and     *)
+(*                    calls loads(content, format): it takes NO options    *)
 (*                                                                         *)
 (* over an abstract file system  path -> file(tree) | unparseable |        *)
 (* unreadable | dir | (absent = missing).  Plain-data trees are the tagged *)
@@ -28,7 +35,9 @@
 (*                                                                         *)
 (* The property is stated separately from these operators: C18_MergeLaw    *)
 (* (per leaf path), C18_Pure, C18_Equivalent (against the declarative      *)
-(* Decl / LawMerge), C18_PathRule, C06_LoadUnchanged.                      *)
+(* Decl / LawMerge, for every format and option value), C18_OptionsUniform *)
+(* (options only say how each file is read), C18_PathRule,                 *)
+(* C06_LoadUnchanged.                                                      *)
 (***************************************************************************)
 EXTENDS CincoValues
 
@@ -143,6 +152,49 @@ FsGet(fs, p) ==
 IsFileEntry(e) == e.k \in {"file", "unparseable", "unreadable"}
 
 ---------------------------------------------------------------------------
+(* formats and formatter options.
+
+   A document / an included file is what the third-party parser of the format yields: a plain
+   value (`v`), and - in XML only - the name of the root element (`tag`; other formats have no
+   such thing and ignore it).  A YAML document "wrapped under root key R" is simply the map
+   {R: {...}}.
+
+   Options of a load:  [fmt, rk, tag, pretty, explicit]
+       fmt       "json" | "yaml" | "xml" | "bson" | "pickle"; "any" = whichever, with default
+                 options and files whose root element is the default one (then the format makes
+                 no difference to anything below)
+       rk        YAML root_key (<<>> = None / "": falsy, no root key)
+       tag       XML root_tag (default "config")
+       pretty    JSON pretty (no effect on loading)
+       explicit  whether keyword arguments were passed at all (non-default values are)     *)
+DefaultTag == <<"c", "o", "n", "f", "i", "g">>
+TagOf(e)   == IF "tag" \in DOMAIN e THEN e.tag ELSE DefaultTag
+DefOpt(fmt) == [fmt |-> fmt, rk |-> <<>>, tag |-> DefaultTag, pretty |-> TRUE, explicit |-> FALSE]
+TagMatters(o) == o.fmt \in {"xml", "any"}
+
+IsSubstr(r, s) == \E i \in 0..(Len(s) - Len(r)) : SubSeq(s, i + 1, i + Len(r)) = r
+
+(* formatter.loads(config, content) after the third-party parser accepted the bytes:
+     XmlConfigFormat:   if root.tag != self.root_tag: raise ValueError
+     YamlConfigFormat:  if self.root_key and self.root_key in tree: tree = tree[self.root_key]
+                        (`in` and the subscript on whatever the document is: a map is looked up
+                        by key; a list / tuple is searched and then cannot be subscripted by a
+                        string; a string is searched as a substring, likewise; anything else
+                        raises in `in`)
+     others:            the parsed value                                                  *)
+FmtRes(ok, v) == [ok |-> ok, v |-> v]
+FmtLoads(o, tag, raw) ==
+    IF TagMatters(o) /\ tag # o.tag THEN FmtRes(FALSE, NoneV)
+    ELSE IF o.fmt = "yaml" /\ o.rk # <<>> THEN
+        CASE IsMap(raw) -> IF DictHas(raw.kv, StrV(o.rk)) THEN FmtRes(TRUE, DictGet(raw.kv, StrV(o.rk)))
+                           ELSE FmtRes(TRUE, raw)
+          [] raw.t \in {"list", "tuple"} ->
+                IF \E i \in DOMAIN raw.l : raw.l[i] = StrV(o.rk) THEN FmtRes(FALSE, NoneV) ELSE FmtRes(TRUE, raw)
+          [] raw.t = "str" -> IF IsSubstr(o.rk, raw.s) THEN FmtRes(FALSE, NoneV) ELSE FmtRes(TRUE, raw)
+          [] OTHER -> FmtRes(FALSE, NoneV)
+    ELSE FmtRes(TRUE, raw)
+
+---------------------------------------------------------------------------
 (* schema descriptors: fields is a sequence of <<key (character sequence), field>> *)
 FAny       == [kind |-> "any"]                                 \* Field()
 FInt       == [kind |-> "int"]                                 \* IntField()
@@ -168,52 +220,55 @@ ValidatePath(f, v, fs) ==
          IN  IF IsFileEntry(e) THEN PathRes(TRUE, StrV(r), OsPath(r), e.k)
              ELSE PathRes(FALSE, NoneV, OsPath(r), e.k)
 
-\* IncludeField.include(config, fmt, filename, base)
+\* IncludeField.include(config, fmt, filename, base); fmt = format_factory(): the caller's
+\* format created with the caller's options o
 IncRes(ok, tree, why, opened, kind) ==
     [ok |-> ok, tree |-> tree, why |-> why, opened |-> opened, kind |-> kind]
-IncludeOne(f, filename, base, fs) ==
+IncludeOne(f, filename, base, fs, o) ==
     LET pv == ValidatePath(f, filename, fs) IN
     IF ~pv.ok THEN IncRes(FALSE, base, "path", pv.looked, pv.ekind)
     ELSE LET p == OsPath(pv.v.s)
              e == FsGet(fs, p)                      \* open(expanduser(filename), "rb")
          IN  IF e.k = "file" THEN
-                 IF IsMap(e.v) THEN IncRes(TRUE, Merge(base, e.v), "", p, "file")
+                 LET c == FmtLoads(o, TagOf(e), e.v) IN              \* child = fmt.loads(config, content)
+                 IF ~c.ok THEN IncRes(FALSE, base, "parse", p, "file-notdoc")
+                 ELSE IF IsMap(c.v) THEN IncRes(TRUE, Merge(base, c.v), "", p, "file")
                  ELSE IncRes(FALSE, base, "notmap", p, "file-notmap")     \* child.items()
              ELSE IF e.k = "unparseable" THEN IncRes(FALSE, base, "parse", p, e.k)
              ELSE IncRes(FALSE, base, "open", p, IF pv.ekind = "empty" THEN "empty" ELSE e.k)
 
 \* Config._process_includes(schema, tree, format_factory)
 ProcRes(ok, tree, why, used) == [ok |-> ok, tree |-> tree, why |-> why, used |-> used]
-RECURSIVE ProcIncs(_, _, _, _)
-RECURSIVE IncLoop(_, _, _, _, _)
-RECURSIVE SubLoop(_, _, _, _, _)
-IncLoop(incs, tree, fs, scope, used) ==
+RECURSIVE ProcIncs(_, _, _, _, _)
+RECURSIVE IncLoop(_, _, _, _, _, _)
+RECURSIVE SubLoop(_, _, _, _, _, _)
+IncLoop(incs, tree, fs, scope, used, o) ==
     IF incs = <<>> THEN ProcRes(TRUE, tree, "", used)
     ELSE LET key == Head(incs)[1]
              f   == Head(incs)[2]
              filename == TGet(tree, K(key))         \* tree.get(key)
-         IN  IF IsNone(filename) THEN IncLoop(Tail(incs), tree, fs, scope, used)
-             ELSE LET r == IncludeOne(f, filename, tree, fs)
+         IN  IF IsNone(filename) THEN IncLoop(Tail(incs), tree, fs, scope, used, o)
+             ELSE LET r == IncludeOne(f, filename, tree, fs, o)
                       u == [scope |-> scope, key |-> key, given |-> filename, sd |-> f.startdir,
                             opened |-> r.opened, kind |-> r.kind]
-                  IN  IF r.ok THEN IncLoop(Tail(incs), r.tree, fs, scope, Append(used, u))
+                  IN  IF r.ok THEN IncLoop(Tail(incs), r.tree, fs, scope, Append(used, u), o)
                       ELSE ProcRes(FALSE, tree, r.why, Append(used, u))
-SubLoop(subs, tree, fs, scope, used) ==
+SubLoop(subs, tree, fs, scope, used, o) ==
     IF subs = <<>> THEN ProcRes(TRUE, tree, "", used)
     ELSE LET key == Head(subs)[1]
              v   == TGet(tree, K(key))
-         IN  IF ~IsMap(v) THEN SubLoop(Tail(subs), tree, fs, scope, used)  \* if isinstance(tree.get(key), dict):
-             ELSE LET r == ProcIncs(Head(subs)[2], v, fs, Append(scope, key)) IN
+         IN  IF ~IsMap(v) THEN SubLoop(Tail(subs), tree, fs, scope, used, o)  \* if isinstance(tree.get(key), dict):
+             ELSE LET r == ProcIncs(Head(subs)[2], v, fs, Append(scope, key), o) IN
                   IF ~r.ok THEN ProcRes(FALSE, tree, r.why, used \o r.used)
                   ELSE SubLoop(Tail(subs), DictV(DictSet(tree.kv, K(key), r.tree)), fs, scope,
-                               used \o r.used)
-ProcIncs(S, tree, fs, scope) ==
+                               used \o r.used, o)
+ProcIncs(S, tree, fs, scope, o) ==
     IF ~IsMap(tree) THEN
         \* tree.get(...) is evaluated only when there is an include field or a nested schema
         IF IncFields(S) # <<>> \/ SubFields(S) # <<>>
         THEN ProcRes(FALSE, tree, "notmap", <<>>) ELSE ProcRes(TRUE, tree, "", <<>>)
-    ELSE LET r == IncLoop(IncFields(S), tree, fs, scope, <<>>) IN
-         IF ~r.ok THEN r ELSE SubLoop(SubFields(S), r.tree, fs, scope, r.used)
+    ELSE LET r == IncLoop(IncFields(S), tree, fs, scope, <<>>, o) IN
+         IF ~r.ok THEN r ELSE SubLoop(SubFields(S), r.tree, fs, scope, r.used, o)
 
 ---------------------------------------------------------------------------
 (* configurations:  [t |-> "cfg", kv |-> <<key, value>>* in declaration order,
@@ -291,34 +346,86 @@ SameCfg(a, b) ==
    other value there is left for load_tree to reject).  A name is resolved
    against the field's start directory (the working directory without one) unless it is
    absolute, and must be an existing regular file holding a map.  Undefined (ok = FALSE)
-   when some name that is reached does not: then the load must fail. *)
+   when some name that is reached does not: then the load must fail.
+
+   What a file (and the document itself) holds is read under the options of the call, the
+   same for all of them: an XML file is a document only if its root element is the root tag
+   of the call; with a YAML root key R the configuration is what the file holds under R - and
+   a file that has no key R stands for itself (the library defines that: "scoped to root_key,
+   if it exists") *)
 Good(t) == [ok |-> TRUE, tree |-> t]
 Bad     == [ok |-> FALSE, tree |-> NoneV]
+Holds(o, tag, raw) ==
+    IF TagMatters(o) /\ tag # o.tag THEN Bad
+    ELSE IF o.fmt = "yaml" /\ o.rk # <<>> /\ IsMap(raw) /\ K(o.rk) \in Range(DictKeys(raw.kv))
+         THEN Good(TGet(raw, K(o.rk)))
+    ELSE Good(raw)
 NamedFile(f, v) ==
     NormPath(IF IsAbs(v.s) THEN v.s
              ELSE (IF f.startdir # <<>> THEN Expand(f.startdir) ELSE Cwd) \o <<"/">> \o v.s)
-Named(f, v, fs) ==
+Named(f, v, fs, o) ==
     IF ~IsStr(v) \/ v.s = <<>> THEN Bad
     ELSE LET e == FsGet(fs, NamedFile(f, v)) IN
-         IF e.k = "file" /\ IsMap(e.v) THEN Good(e.v) ELSE Bad
-RECURSIVE DeclScope(_, _, _)
-DeclScope(incs, tree, fs) ==
+         IF e.k # "file" THEN Bad
+         ELSE LET h == Holds(o, TagOf(e), e.v) IN
+              IF h.ok /\ IsMap(h.tree) THEN h ELSE Bad
+RECURSIVE DeclScope(_, _, _, _)
+DeclScope(incs, tree, fs, o) ==
     IF incs = <<>> THEN Good(tree)
     ELSE LET v == TGet(tree, K(Head(incs)[1])) IN
-         IF IsNone(v) THEN DeclScope(Tail(incs), tree, fs)
-         ELSE LET n == Named(Head(incs)[2], v, fs) IN
-              IF ~n.ok THEN Bad ELSE DeclScope(Tail(incs), LawMerge(tree, n.tree), fs)
-RECURSIVE Decl(_, _, _)
-Decl(S, tree, fs) ==
+         IF IsNone(v) THEN DeclScope(Tail(incs), tree, fs, o)
+         ELSE LET n == Named(Head(incs)[2], v, fs, o) IN
+              IF ~n.ok THEN Bad ELSE DeclScope(Tail(incs), LawMerge(tree, n.tree), fs, o)
+RECURSIVE Decl(_, _, _, _)
+Decl(S, tree, fs, o) ==
     IF ~IsMap(tree) THEN (IF IncFields(S) # <<>> \/ SubFields(S) # <<>> THEN Bad ELSE Good(tree))
-    ELSE LET m == DeclScope(IncFields(S), tree, fs) IN
+    ELSE LET m == DeclScope(IncFields(S), tree, fs, o) IN
          IF ~m.ok THEN Bad
          ELSE LET kv == m.tree.kv
                   sub(i) == LET k == kv[i][1]  v == kv[i][2] IN
                             IF IsStr(k) /\ HasField(S, k.s) /\ FieldOf(S, k.s).kind = "schema" /\ IsMap(v)
-                            THEN Decl(FieldOf(S, k.s), v, fs) ELSE Good(v)
+                            THEN Decl(FieldOf(S, k.s), v, fs, o) ELSE Good(v)
               IN  IF \E i \in DOMAIN kv : ~sub(i).ok THEN Bad
                   ELSE Good(DictV([i \in DOMAIN kv |-> <<kv[i][1], sub(i).tree>>]))
+\* the merged tree of a whole document (root element `tag`, parsed value `raw`) under options o
+DeclDoc(S, o, tag, raw, fs) ==
+    LET h == Holds(o, tag, raw) IN
+    IF ~h.ok THEN Bad
+    ELSE IF o.fmt = "yaml" /\ o.rk # <<>> /\ ~IsMap(raw) THEN Bad    \* no document to scope to the root key
+    ELSE Decl(S, h.tree, fs, o)
+
+---------------------------------------------------------------------------
+(* one whole call, as one operator (the actions of IncludeLab take the same steps one by one;
+   the trace specification and C18_OptionsUniform use this) *)
+RunRes(out, failedAt, why, cfg, repl, used, unmodelled) ==
+    [out |-> out, failedAt |-> failedAt, why |-> why, cfg |-> cfg, repl |-> repl, used |-> used,
+     unmodelled |-> unmodelled]
+\* Config.load(filename, format) has no **kwargs: passing options is a TypeError at the call
+CallOk(via, o) == ~(via = "load" /\ o.explicit)
+RunLoad(S, cfg0, via, o, doc, fs) ==
+    IF ~CallOk(via, o) THEN RunRes("rejected", "call", "options", cfg0, {}, <<>>, FALSE)
+    ELSE IF doc.k # "tree" THEN RunRes("rejected", "parse", doc.how, cfg0, {}, <<>>, FALSE)
+    ELSE LET p == FmtLoads(o, TagOf(doc), doc.v) IN
+         IF ~p.ok THEN RunRes("rejected", "parse", "notdoc", cfg0, {}, <<>>, FALSE)
+         ELSE LET r1 == ProcIncs(S, p.v, fs, <<>>, o) IN
+              IF ~r1.ok THEN RunRes("rejected", "include", r1.why, cfg0, {}, r1.used, FALSE)
+              ELSE LET r2 == LoadTreeOp(S, cfg0, r1.tree, fs, <<>>) IN
+                   RunRes(IF r2.ok THEN "ok" ELSE "rejected", IF r2.ok THEN "" ELSE "loadtree", "",
+                          r2.cfg, r2.repl, r1.used, r2.unmodelled)
+
+(* the option-free twin of a case: every file rewritten as the plain document (default root
+   element, no root key) of what it holds under options o; a file that holds no map under o
+   becomes one that is not a document *)
+PlainEntry(o, e) ==
+    IF e.k # "file" THEN e
+    ELSE LET h == Holds(o, TagOf(e), e.v) IN
+         IF h.ok /\ IsMap(h.tree) THEN [k |-> "file", v |-> h.tree] ELSE [k |-> "unparseable"]
+PlainFs(o, fs) == [i \in DOMAIN fs |-> <<fs[i][1], PlainEntry(o, fs[i][2])>>]
+PlainDoc(o, doc) ==
+    IF doc.k # "tree" THEN doc
+    ELSE LET h == Holds(o, TagOf(doc), doc.v) IN
+         IF h.ok /\ IsMap(h.tree) THEN [k |-> "tree", v |-> h.tree]
+         ELSE [k |-> "unparseable", how |-> "notdoc"]
 
 ---------------------------------------------------------------------------
 (* the property's predicates, on observations (used by the machines below and by the trace
